@@ -163,6 +163,13 @@ func (r *vfRec) emit(kv map[string]any) {
 	r.lines = append(r.lines, line)
 }
 
+func (r *vfRec) finish() []string {
+	r.mu.Lock()
+	defer r.mu.Unlock()
+	r.closed = true
+	return r.lines
+}
+
 func (r *vfRec) log(kv map[string]any) {
 	r.mu.Lock()
 	defer r.mu.Unlock()
@@ -191,7 +198,7 @@ func vfDepth(v any) int {
 		return 0
 	}
 	if n, isTerm := m["n"]; isTerm && len(m) == 2 {
-		if n == "x" {
+		if ns, _ := n.(string); strings.HasPrefix(ns, "x") { // the initial term ("x", or "x<k>" for the k-th concurrent run)
 			return 0
 		}
 		return 1 + vfDepth(m["i"])
@@ -208,9 +215,10 @@ func vfDepth(v any) int {
 // ---------------------------------------------------------------------------------------------- byte-only store
 
 type vfStore struct {
-	mu   sync.Mutex
-	m    map[string][]byte
-	sets []string
+	mu    sync.Mutex
+	m     map[string][]byte
+	sets  []string
+	known map[string]bool // checkpoint ids of the logical runs sharing this store
 }
 
 func (s *vfStore) Get(_ context.Context, id string) ([]byte, bool, error) {
@@ -231,25 +239,49 @@ func (s *vfStore) Set(_ context.Context, id string, cp []byte) error {
 	return nil
 }
 
-func (s *vfStore) takeSets() []string {
+// takeSets returns (and forgets) the ids written since the last call that belong to run `id` (checkpoint id "cp-<id>"), plus any
+// write under an id that belongs to no run of this store's scenario (so a stray write is still seen by exactly one run)
+func (s *vfStore) takeSets(id string) []string {
 	s.mu.Lock()
 	defer s.mu.Unlock()
-	out := s.sets
-	s.sets = nil
-	if out == nil {
-		out = []string{}
+	out, rest := []string{}, []string{}
+	for _, k := range s.sets {
+		if k == "cp-"+id || !s.known[k] {
+			out = append(out, k)
+		} else {
+			rest = append(rest, k)
+		}
 	}
+	s.sets = rest
 	return out
 }
 
 // ---------------------------------------------------------------------------------------------- building
 
+// vfRun is one built scenario (closures of node bodies, handlers, branch conditions); vfCall is one logical run of it (a first
+// call plus its resume calls): the recorder, the rerun bookkeeping and the identity of the run travel in the context, so that several
+// runs of the SAME compiled runnable can be observed separately (C09).
 type vfRun struct {
-	sc       *vfScenario
+	sc    *vfScenario
+	def   *vfCall
+	gates *vfGates
+}
+
+type vfCall struct {
 	rec      *vfRec
-	attempts sync.Map // path -> *int (rerun bookkeeping, per scenario)
+	attempts sync.Map // path -> *int (rerun bookkeeping)
 	cancel   context.CancelFunc
-	gates    *vfGates
+	id       string // run id (case id)
+	x0       string // name of the initial term: distinct per concurrent run, so cross-talk changes a value
+}
+
+type vfCallKey struct{}
+
+func (r *vfRun) cur(ctx context.Context) *vfCall {
+	if c, ok := ctx.Value(vfCallKey{}).(*vfCall); ok && c != nil {
+		return c
+	}
+	return r.def
 }
 
 // completion-order gates: node bodies finish in the order given by Delay ranks (per superstep batch, best effort)
@@ -275,14 +307,15 @@ func (r *vfRun) nodeLambda(prefix string, sc *vfScenario, name string) *Lambda {
 		}
 	}
 	body := func(ctx context.Context, in map[string]any) (map[string]any, error) {
+		rc := r.cur(ctx)
 		abort := false
 		if isRerun {
-			p, _ := r.attempts.LoadOrStore(path, new(int))
+			p, _ := rc.attempts.LoadOrStore(path, new(int))
 			cnt := p.(*int)
-			r.rec.mu.Lock()
+			rc.rec.mu.Lock()
 			*cnt++
 			abort = *cnt == 1
-			r.rec.mu.Unlock()
+			rc.rec.mu.Unlock()
 		}
 		ev := "exec"
 		if abort {
@@ -291,8 +324,8 @@ func (r *vfRun) nodeLambda(prefix string, sc *vfScenario, name string) *Lambda {
 		if sc.State {
 			// read the state and write the exec line inside the state lock: log order = lock order
 			err := ProcessState[*vfState](ctx, func(_ context.Context, st *vfState) error {
-				r.cs(st, prefix, "body", name)
-				r.rec.log(map[string]any{"ev": ev, "p": prefix, "n": name, "i": in, "st": append([]string{}, st.Trail...), "sx": st.digest()})
+				r.cs(rc.rec, st, prefix, "body", name)
+				rc.rec.log(map[string]any{"ev": ev, "p": prefix, "n": name, "i": in, "st": append([]string{}, st.Trail...), "sx": st.digest()})
 				if isRerun && !abort {
 					delete(st.Pending, name)
 				}
@@ -302,7 +335,7 @@ func (r *vfRun) nodeLambda(prefix string, sc *vfScenario, name string) *Lambda {
 				return nil, fmt.Errorf("verif harness: state unavailable in node %s: %w", path, err)
 			}
 		} else {
-			r.rec.log(map[string]any{"ev": ev, "p": prefix, "n": name, "i": in})
+			rc.rec.log(map[string]any{"ev": ev, "p": prefix, "n": name, "i": in})
 		}
 		if abort {
 			return nil, InterruptAndRerun
@@ -325,16 +358,16 @@ func (r *vfRun) nodeLambda(prefix string, sc *vfScenario, name string) *Lambda {
 			case "err":
 				return nil, fmt.Errorf("wrapped: %w", &vfErrWrap{Node: path, cause: vfSentinel})
 			case "panic":
-				panic("verif injected panic at " + r.sc.ID + "::" + path)
+				panic("verif injected panic at " + rc.id + "::" + path)
 			case "cancel":
-				if r.cancel != nil {
-					r.cancel()
+				if rc.cancel != nil {
+					rc.cancel()
 				}
 			case "serr":
 				// the body succeeds; its output stream carries an error item after the first chunk (see below)
 			}
 		}
-		r.rec.log(map[string]any{"ev": "done", "p": prefix, "n": name})
+		rc.rec.log(map[string]any{"ev": "done", "p": prefix, "n": name})
 		if vfIn(sc.Echo, name) {
 			if in == nil {
 				in = map[string]any{}
@@ -383,17 +416,17 @@ func (e *vfErrWrap) Error() string { return "verif injected failure at " + e.Nod
 func (e *vfErrWrap) Unwrap() error { return e.cause }
 
 // one critical section on the state: read-modify-write of the counter with a yield in between, logged inside the lock
-func (r *vfRun) cs(st *vfState, prefix, kind, name string) {
+func (r *vfRun) cs(rec *vfRec, st *vfState, prefix, kind, name string) {
 	seq := st.Count
 	runtime.Gosched()
 	time.Sleep(15 * time.Microsecond)
 	st.Count = seq + 1
-	r.rec.log(map[string]any{"ev": "cs", "p": prefix, "k": kind, "n": name, "seq": seq})
+	rec.log(map[string]any{"ev": "cs", "p": prefix, "k": kind, "n": name, "seq": seq})
 }
 
 func (r *vfRun) postHandler(prefix string, sc *vfScenario, name string) StatePostHandler[map[string]any, *vfState] {
 	return func(ctx context.Context, out map[string]any, st *vfState) (map[string]any, error) {
-		r.cs(st, prefix, "post", name)
+		r.cs(r.cur(ctx).rec, st, prefix, "post", name)
 		if sc.HMod {
 			o2 := map[string]any{}
 			for k, v := range out {
@@ -411,8 +444,8 @@ func (r *vfRun) preHandler(prefix string, sc *vfScenario, name string) StatePreH
 	return func(ctx context.Context, in map[string]any, st *vfState) (map[string]any, error) {
 		if isRerun && st.Pending[name] && len(in) == 0 {
 			in, _ = st.Saved[name].(map[string]any) // rebuild the input of the aborted attempt from state
-			r.cs(st, prefix, "pre", name)
-			r.rec.log(map[string]any{"ev": "pre", "p": prefix, "n": name, "rebuilt": true})
+			r.cs(r.cur(ctx).rec, st, prefix, "pre", name)
+			r.cur(ctx).rec.log(map[string]any{"ev": "pre", "p": prefix, "n": name, "rebuilt": true})
 			return in, nil
 		}
 		if sc.HMod {
@@ -423,7 +456,7 @@ func (r *vfRun) preHandler(prefix string, sc *vfScenario, name string) StatePreH
 			i2["pre"] = map[string]any{"n": "pre", "i": map[string]any{}}
 			in = i2
 		}
-		r.cs(st, prefix, "pre", name)
+		r.cs(r.cur(ctx).rec, st, prefix, "pre", name)
 		st.Trail = append(st.Trail, name)
 		if isRerun {
 			if st.Saved == nil {
@@ -438,7 +471,7 @@ func (r *vfRun) preHandler(prefix string, sc *vfScenario, name string) StatePreH
 			st.Saved[name] = in
 			st.Pending[name] = true
 		}
-		r.rec.log(map[string]any{"ev": "pre", "p": prefix, "n": name, "rebuilt": false})
+		r.cur(ctx).rec.log(map[string]any{"ev": "pre", "p": prefix, "n": name, "rebuilt": false})
 		return in, nil
 	}
 }
@@ -448,13 +481,13 @@ func (r *vfRun) branch(prefix string, idx int, b vfBranch) *GraphBranch {
 	for _, e := range b.Ends {
 		ends[e] = true
 	}
-	decide := func(in map[string]any) []string {
+	decide := func(ctx context.Context, in map[string]any) []string {
 		d := vfDepth(in)
 		if d >= len(b.Pol) {
 			d = len(b.Pol) - 1
 		}
 		chosen := b.Pol[d]
-		r.rec.log(map[string]any{"ev": "branch", "p": prefix, "b": idx + 1, "i": in, "to": vfSorted(chosen)})
+		r.cur(ctx).rec.log(map[string]any{"ev": "branch", "p": prefix, "b": idx + 1, "i": in, "to": vfSorted(chosen)})
 		return chosen
 	}
 	concat := func(sr *schema.StreamReader[map[string]any]) (map[string]any, error) {
@@ -481,7 +514,7 @@ func (r *vfRun) branch(prefix string, idx int, b vfBranch) *GraphBranch {
 					return nil, err
 				}
 				out := map[string]bool{}
-				for _, c := range decide(in) {
+				for _, c := range decide(ctx, in) {
 					out[c] = true
 				}
 				return out, nil
@@ -489,7 +522,7 @@ func (r *vfRun) branch(prefix string, idx int, b vfBranch) *GraphBranch {
 		}
 		return NewGraphMultiBranch(func(ctx context.Context, in map[string]any) (map[string]bool, error) {
 			out := map[string]bool{}
-			for _, c := range decide(in) {
+			for _, c := range decide(ctx, in) {
 				out[c] = true
 			}
 			return out, nil
@@ -501,11 +534,11 @@ func (r *vfRun) branch(prefix string, idx int, b vfBranch) *GraphBranch {
 			if err != nil {
 				return "", err
 			}
-			return decide(in)[0], nil
+			return decide(ctx, in)[0], nil
 		}, ends)
 	}
 	return NewGraphBranch(func(ctx context.Context, in map[string]any) (string, error) {
-		return decide(in)[0], nil
+		return decide(ctx, in)[0], nil
 	}, ends)
 }
 
@@ -729,9 +762,9 @@ type vfOutcome struct {
 	pan any
 }
 
-func (r *vfRun) call(run Runnable[map[string]any, map[string]any], paradigm string, opts []Option) vfOutcome {
-	ctx, cancel := context.WithCancel(context.Background())
-	r.cancel = cancel
+func (r *vfRun) call(rc *vfCall, run Runnable[map[string]any, map[string]any], paradigm string, opts []Option) vfOutcome {
+	ctx, cancel := context.WithCancel(context.WithValue(context.Background(), vfCallKey{}, rc))
+	rc.cancel = cancel
 	defer cancel()
 	ch := make(chan vfOutcome, 1)
 	go func() {
@@ -744,7 +777,7 @@ func (r *vfRun) call(run Runnable[map[string]any, map[string]any], paradigm stri
 			}
 			ch <- o
 		}()
-		in := map[string]any{"in": map[string]any{"n": "x", "i": map[string]any{}}}
+		in := map[string]any{"in": map[string]any{"n": rc.x0, "i": map[string]any{}}}
 		switch paradigm {
 		case "stream", "transform":
 			var sr *schema.StreamReader[map[string]any]
@@ -789,35 +822,42 @@ func (r *vfRun) call(run Runnable[map[string]any, map[string]any], paradigm stri
 	}
 }
 
-func (r *vfRun) runScenario() {
+// compile builds and compiles the scenario once; the runnable may then be driven by several logical runs
+func (r *vfRun) compile(store *vfStore) (run Runnable[map[string]any, map[string]any], err error) {
 	sc := r.sc
-	rec := r.rec
-	rec.log(vfCaseLine(sc))
-
-	store := &vfStore{m: map[string][]byte{}}
 	g, err := r.build("", sc)
 	if err != nil {
-		rec.log(map[string]any{"ev": "builderror", "msg": err.Error()})
-		return
+		return nil, err
 	}
-	var run Runnable[map[string]any, map[string]any]
-	func() {
-		defer func() {
-			if p := recover(); p != nil {
-				err = fmt.Errorf("compile panic: %v", p)
-			}
-		}()
-		copts := r.compileOpts(sc, store)
-		if wf, ok := g.(*Workflow[map[string]any, map[string]any]); ok {
-			run, err = wf.Compile(context.Background(), copts...)
-		} else {
-			run, err = g.(*Graph[map[string]any, map[string]any]).Compile(context.Background(), copts...)
+	defer func() {
+		if p := recover(); p != nil {
+			err = fmt.Errorf("compile panic: %v", p)
 		}
 	}()
+	copts := r.compileOpts(sc, store)
+	if wf, ok := g.(*Workflow[map[string]any, map[string]any]); ok {
+		return wf.Compile(context.Background(), copts...)
+	}
+	return g.(*Graph[map[string]any, map[string]any]).Compile(context.Background(), copts...)
+}
+
+func (r *vfRun) runScenario() {
+	rc := r.def
+	line := vfCaseLine(r.sc)
+	rc.rec.log(line)
+	store := &vfStore{m: map[string][]byte{}}
+	run, err := r.compile(store)
 	if err != nil {
-		rec.log(map[string]any{"ev": "builderror", "msg": err.Error()})
+		rc.rec.log(map[string]any{"ev": "builderror", "msg": err.Error()})
 		return
 	}
+	r.drive(rc, run, store)
+}
+
+// drive performs one logical run: the first call and every resume call until a result, an error or the call bound
+func (r *vfRun) drive(rc *vfCall, run Runnable[map[string]any, map[string]any], store *vfStore) {
+	sc := r.sc
+	rec := rc.rec
 	maxCalls := sc.MaxCalls
 	if maxCalls == 0 {
 		maxCalls = 12
@@ -843,10 +883,10 @@ func (r *vfRun) runScenario() {
 			rec.log(map[string]any{"ev": "resume", "call": paradigm, "mod": mod})
 		}
 		if !sc.NoID {
-			opts = append(opts, WithCheckPointID("cp-"+sc.ID))
+			opts = append(opts, WithCheckPointID("cp-"+rc.id))
 		}
-		o := r.call(run, paradigm, opts)
-		sets := store.takeSets()
+		o := r.call(rc, run, paradigm, opts)
+		sets := store.takeSets(rc.id)
 		switch {
 		case o.pan != nil:
 			msg := fmt.Sprint(o.pan)
@@ -935,7 +975,7 @@ func vfCaseLine(sc *vfScenario) map[string]any {
 	}
 	return map[string]any{"ev": "case", "id": sc.ID, "mode": sc.Mode, "nodes": vfL(sc.Nodes), "edges": edges, "branches": brs,
 		"max": sc.Max, "before": vfL(sc.Before), "after": vfL(sc.After), "rerun": vfL(sc.Rerun), "state": sc.State,
-		"fail": fails, "noid": sc.NoID, "subs": subs, "calls": vfL(sc.Calls), "post": sc.Post, "hmod": sc.HMod, "echo": vfL(sc.Echo)}
+		"fail": fails, "noid": sc.NoID, "subs": subs, "calls": vfL(sc.Calls), "post": sc.Post, "hmod": sc.HMod, "echo": vfL(sc.Echo), "x0": "x"}
 }
 
 var ioEOF = func() error {
@@ -986,15 +1026,12 @@ func TestVerifEngine(t *testing.T) {
 		go func() {
 			defer wg.Done()
 			for sc := range next {
-				r := &vfRun{sc: sc, rec: &vfRec{}}
+				r := &vfRun{sc: sc, def: &vfCall{rec: &vfRec{}, id: sc.ID, x0: "x"}}
 				if len(sc.Delay) > 0 {
 					r.gates = newVfGates()
 				}
 				r.runScenario()
-				r.rec.mu.Lock()
-				r.rec.closed = true
-				lines := r.rec.lines
-				r.rec.mu.Unlock()
+				lines := r.def.rec.finish()
 				wmu.Lock()
 				for _, l := range lines {
 					w.WriteString(l)
@@ -1022,3 +1059,86 @@ var vfWatchdog = func() time.Duration {
 	}
 	return time.Duration(ms) * time.Millisecond
 }()
+
+
+// TestVerifConcurrent (C09): every scenario is compiled ONCE and driven by VERIF_CALLERS logical runs at the same time (each with
+// its own checkpoint id, its own initial term and its own recorder); every run's observations form a case of their own, so the
+// trace validator decides for each run whether it is the run it would have been alone.
+func TestVerifConcurrent(t *testing.T) {
+	in, out := os.Getenv("VERIF_CASES"), os.Getenv("VERIF_OUT")
+	if in == "" || out == "" {
+		t.Skip("VERIF_CASES / VERIF_OUT not set")
+	}
+	callers := 4
+	if s := os.Getenv("VERIF_CALLERS"); s != "" {
+		fmt.Sscanf(s, "%d", &callers)
+	}
+	data, err := os.ReadFile(in)
+	if err != nil {
+		t.Fatal(err)
+	}
+	of, err := os.Create(out)
+	if err != nil {
+		t.Fatal(err)
+	}
+	w := bufio.NewWriterSize(of, 1<<20)
+	n := 0
+	sem := make(chan struct{}, 4) // scenarios in flight
+	var wmu sync.Mutex
+	var swg sync.WaitGroup
+	for _, raw := range strings.Split(string(data), "\n") {
+		if strings.TrimSpace(raw) == "" {
+			continue
+		}
+		sc := &vfScenario{}
+		if e := json.Unmarshal([]byte(raw), sc); e != nil {
+			t.Fatalf("bad scenario line: %v", e)
+		}
+		n++
+		sem <- struct{}{}
+		swg.Add(1)
+		go func(sc *vfScenario) {
+			defer func() { <-sem; swg.Done() }()
+			r := &vfRun{sc: sc, def: &vfCall{rec: &vfRec{}, id: sc.ID, x0: "x"}}
+			store := &vfStore{m: map[string][]byte{}, known: map[string]bool{}}
+			run, cerr := r.compile(store)
+			calls := make([]*vfCall, callers)
+			for k := range calls {
+				calls[k] = &vfCall{rec: &vfRec{}, id: fmt.Sprintf("%s#%d", sc.ID, k), x0: fmt.Sprintf("x%d", k)}
+				store.known["cp-"+calls[k].id] = true
+				line := vfCaseLine(sc)
+				line["id"] = calls[k].id
+				line["x0"] = calls[k].x0
+				calls[k].rec.log(line)
+			}
+			var wg sync.WaitGroup
+			start := make(chan struct{})
+			for k := range calls {
+				wg.Add(1)
+				go func(rc *vfCall) {
+					defer wg.Done()
+					if cerr != nil {
+						rc.rec.log(map[string]any{"ev": "builderror", "msg": cerr.Error()})
+						return
+					}
+					<-start
+					r.drive(rc, run, store)
+				}(calls[k])
+			}
+			close(start)
+			wg.Wait()
+			wmu.Lock()
+			for _, rc := range calls {
+				for _, l := range rc.rec.finish() {
+					w.WriteString(l)
+					w.WriteByte('\n')
+				}
+			}
+			wmu.Unlock()
+		}(sc)
+	}
+	swg.Wait()
+	w.Flush()
+	of.Close()
+	fmt.Printf("VERIF-CONCURRENT scenarios=%d callers=%d\n", n, callers)
+}
